@@ -915,3 +915,82 @@ Example C01_fragment4_session_run :
   | _ => False
   end.
 Proof. exact ex7_run. Qed.
+
+(* ====================================================================================== set! on locals: machine level *)
+(* `set!` on a LOCAL variable (a parameter of the running lambda: direct slot of the activation
+   environment; or a variable captured from an enclosing lambda: reached through ONE pointer).
+   Proofs/FrameSteps5.v, StoreLocal5.v, Closures5.v.  Machine-level facts (used by fragment 6
+   below): the compile shape, the instruction MOV %acc (lexical slot i), and the frame condition
+   [frameL (loc_one e j)]: everything [frame] says, and every existing environment payload
+   keeps its length and all its slots EXCEPT slot j of environment e.  [cext], [frame], [minv],
+   [code_in] survive the store; what fails is exactly the environment clause of [rext] / [frame2],
+   on which the closure values of fragments 3 and 4 (which pin the CONTENT of each captured slot)
+   depend. *)
+From MW Require Proofs.FrameSteps5 Proofs.Closures5 Proofs.StoreLocal5.
+
+(* (set! x e) for a name bound by the environment map of the lambda under construction compiles
+   to: the code of e; MOV %acc (lexical slot i); MOV_IMMEDIATE #<void> %acc.  No global slot is
+   created (only the symbol is interned) *)
+Theorem C01_compile_set_local : forall sc x i (ce : cell) f l tail s l1 s1 code,
+  is_primitive_symbol (CSym x) = false -> pindex x sc = Some i -> hdr3 l sc s ->
+  compile_expression f l false ce s = ROk l1 s1 -> fwd l1 = fwd l ++ code -> same_hdr l l1 ->
+  minv s1 -> cext s s1 ->
+  exists l2 s2,
+    compile_expression (S f) l tail (CPair SET_ (CPair (CSym x) (CPair ce CNil))) s = ROk l2 s2 /\
+    fwd l2 = fwd l ++ code ++ [VOp OMov; VAcc; VLexSlot i; VOp OMovImmediate; VVoid; VAcc] /\
+    same_hdr l l2 /\ minv s2 /\ cext s1 s2 /\ same_regs s1 s2 /\ st s2 = st s1 /\
+    g_bind s2 = g_bind s1 /\ g_slots s2 = g_slots s1.
+Proof. exact FrameSteps5.compile_set_local. Qed.
+Print Assumptions C01_compile_set_local.
+
+(* the location of slot i of the running activation, spelled out *)
+Theorem C01_loc_of_unfold : forall m i e j, StoreLocal5.loc_of m i e j <->
+  exists eid slots v, allocated (hp m) (ep m) /\ cell_at (hp m) (ep m) = VLexEnv eid /\
+    eid < next_id (st m) /\ tget (envs (st m)) eid = Some slots /\ list_get slots i = Some v /\
+    (((forall a k, v <> VLexPtr a k) /\ e = eid /\ j = i) \/
+     (exists a, v = VLexPtr a j /\ allocated (hp m) a /\ cell_at (hp m) a = VLexEnv e /\
+        exists sl w, e < next_id (st m) /\ tget (envs (st m)) e = Some sl /\ list_get sl j = Some w /\
+                     forall a' k, w <> VLexPtr a' k)).
+Proof. intros; reflexivity. Qed.
+Print Assumptions C01_loc_of_unfold.
+
+(* MOV %acc (lexical slot i); MOV_IMMEDIATE #<void> %acc: two instructions, the location of slot
+   i now holds the old %acc, %acc is #<void>, everything else — the stack, the registers, the
+   globals, every other slot of every existing environment, the location map of the running
+   activation — is as before *)
+Theorem C01_store_local_tail : forall (ob : N -> M vcell) m1 lp bc p i e j,
+  minv m1 -> code_in m1 lp bc -> seg bc p [VOp OMov; VAcc; VLexSlot i; VOp OMovImmediate; VVoid; VAcc] ->
+  ip m1 = (lp, p) -> StoreLocal5.loc_of m1 i e j -> (forall a k, acc m1 <> VLexPtr a k) ->
+  exists m3, RunProofs.steps ob 2 m1 = Some m3 /\ StoreLocal5.frameL (StoreLocal5.loc_one e j) m1 m3 /\ minv m3 /\
+    ip m3 = (lp, p + 6) /\ acc m3 = VVoid /\
+    (exists sl, tget (envs (st m3)) e = Some sl /\ list_get sl j = Some (acc m1)) /\
+    g_slots m3 = g_slots m1 /\
+    (forall i' e' j', StoreLocal5.loc_of m1 i' e' j' -> StoreLocal5.loc_of m3 i' e' j').
+Proof. exact StoreLocal5.store_local_tail. Qed.
+Print Assumptions C01_store_local_tail.
+Theorem C01_frameL_unfold : forall L m m', StoreLocal5.frameL L m m' <->
+  frame m m' /\
+  (forall e sl, e < next_id (st m) -> tget (envs (st m)) e = Some sl ->
+     exists sl', tget (envs (st m')) e = Some sl' /\ len sl' = len sl /\
+       forall k, ~ L e k -> list_get sl' k = list_get sl k).
+Proof. intros L m m'. split; [intros [F E]; split; assumption|intros [F E]; constructor; assumption]. Qed.
+Print Assumptions C01_frameL_unfold.
+
+(* non-vacuity, as model runs on the empty machine: the COUNTER without numeric builtins
+   ((lambda (n) ((lambda (inc) (inc) (inc)) (lambda () (set! n (if n #f #t)) n))) #f)
+   — n is captured by the thunk, assigned through the pointer, both calls see the same location —
+   answers #f after two toggles, #t after one and after three *)
+Example C01_counter_run :
+  match eval other_builtin 300 Closures5.counter_datum (vm_empty 8192) with
+  | ROk (Done c) s' => c = CBool false /\ sp s' = 0 /\ bp s' = 0 /\ ep s' = USIZE_MAX
+  | _ => False
+  end /\
+  match eval other_builtin 300 Closures5.counter1_datum (vm_empty 8192) with
+  | ROk (Done c) s' => c = CBool true /\ sp s' = 0 /\ bp s' = 0 /\ ep s' = USIZE_MAX
+  | _ => False
+  end /\
+  match eval other_builtin 300 Closures5.counter3_datum (vm_empty 8192) with
+  | ROk (Done c) s' => c = CBool true /\ sp s' = 0 /\ bp s' = 0 /\ ep s' = USIZE_MAX
+  | _ => False
+  end.
+Proof. split; [exact Closures5.counter_run|split; [exact Closures5.counter1_run|exact Closures5.counter3_run]]. Qed.
